@@ -409,7 +409,11 @@ let exec cs (toks : string list) (res : string) : unit =
        let c0 = List.hd (split_ws co) and r0 = List.hd (split_ws ro) in
        if c0 <> r0 || kv co "f64" <> kv ro "f64" then bad "prop" "sat_count: C [%s] vs Rust [%s]" co ro;
        if kv co "eq" <> "1" || kv co "cmp" <> "0" then bad "prop" "natural clone/eq/cmp: [%s]" co;
-       if c0 <> string_of_n x then bad "corr" "sat_count: %s vs model %s" c0 (string_of_n x)
+       if c0 <> string_of_n x then bad "corr" "sat_count: %s vs model %s" c0 (string_of_n x);
+       (* the floating point count of these small functions is exact *)
+       let want = Printf.sprintf "%016Lx" (Int64.bits_of_float (Z.to_float (z_of_n x))) in
+       if kv co "f64" <> want then
+         bad "prop" "sat_count_double returned bits %s, the exact count is %s (bits %s)" (kv co "f64") (string_of_n x) want
      | _ -> bad "corr" "model: number expected")
   | "PICK" ->
     let c0 = List.hd (split_ws co) and r0 = List.hd (split_ws ro) in
@@ -473,8 +477,16 @@ let () =
       let kind = match param c "kind" with
         | Some "bdd" -> Model.FB | Some "bcdd" -> Model.FC | Some "zbdd" -> Model.FZ
         | _ -> failwith "kind" in
-      let cs = { st = Model.init kind; ids = Hashtbl.create 64; oom_seen = false; nonterm = 0;
-                 small = param_int c "cap" 65536 < 1000 } in
+      (* one independent client (model state) per "@k" prefix; calls of different clients never
+         share a handle, so the model of the whole case is the product of the per-manager models *)
+      let clients : (int, cs) Hashtbl.t = Hashtbl.create 4 in
+      let client k =
+        match Hashtbl.find_opt clients k with
+        | Some x -> x
+        | None ->
+          let x = { st = Model.init kind; ids = Hashtbl.create 64; oom_seen = false; nonterm = 0;
+                    small = param_int c "cap" 65536 < 1000 } in
+          Hashtbl.replace clients k x; x in
       let badv = ref false in
       List.iteri
         (fun i l ->
@@ -486,6 +498,12 @@ let () =
             else
               let ops, res = split_arrow l in
               let toks = split_ws ops in
+              let inst, toks = match toks with
+                | t0 :: rest when String.length t0 > 1 && t0.[0] = '@' ->
+                  (int_of_string (String.sub t0 1 (String.length t0 - 1)), rest)
+                | _ -> (0, toks) in
+              let cs = client inst in
+              if inst > 0 then stat "calls_on_second_manager" 1;
               if res = "SKIP" then stat "skipped_calls" 1
               else begin
                 stat ("op_" ^ List.hd toks) 1;
@@ -504,6 +522,7 @@ let () =
         c.lines;
       stat "cases" 1;
       stat "steps" (List.length c.lines);
-      if cs.oom_seen then stat "cases_with_oom" 1;
+      if Hashtbl.fold (fun _ x acc -> acc || x.oom_seen) clients false then stat "cases_with_oom" 1;
+      if Hashtbl.length clients > 1 then stat "cases_with_several_managers" 1;
       if not !badv then verdict_ok c);
   dump_stats ()
